@@ -36,6 +36,8 @@ FINGERPRINTS = [
     ("src/linters/print_statements/linter.py", ["_should_ignore", "_check_generic_ignore", "_has_generic_ignore_directive", "_has_generic_thailint_ignore",
                                                 "_should_ignore_typescript", "_check_typescript_ignore", "_has_typescript_ignore_directive"]),
     ("src/linters/method_property/linter.py", ["_should_ignore", "_has_inline_ignore"]),
+    ("src/linters/collection_pipeline/linter.py", ["check", "_should_ignore_violation", "_get_line_text", "_rule_matches"]),
+    ("src/linters/stateless_class/linter.py", ["check", "_should_ignore_violation", "_get_line_text", "_rule_matches"]),
 ]
 
 
@@ -478,6 +480,97 @@ def generic_extras():
     out += defn("method_property_needles", "list string", coq_str_list(m))
     return out
 
+# ---------------------------------------------------------------- linter-level ignore lists: which matcher each linter applies
+SH_PATH_OR_SUB = ("def _matches_pattern(self, file_path, pattern):\n    if file_path.match(pattern):\n        return True\n"
+                  "    if pattern in str(file_path):\n        return True\n    return False")
+SH_IS_FILE_IGNORED_A = ("def _is_file_ignored(self, context, config):\n    if not config.ignore:\n        return False\n    if not context.file_path:\n"
+                        "        return False\n    file_path = Path(context.file_path)\n"
+                        "    return any((self._matches_pattern(file_path, pattern) for pattern in config.ignore))")
+SH_IS_FILE_IGNORED_SUB = ("def _is_file_ignored(self, context, config):\n    if not config.ignore:\n        return False\n    file_path = str(context.file_path)\n"
+                          "    return any((pattern in file_path for pattern in config.ignore))")
+SH_IS_IGNORED_PATH = "def is_ignored_path(file_path, ignore_patterns):\n    return any((ignored in file_path for ignored in ignore_patterns))"
+MATCHER_CLASSES = {"magic_numbers": ("linter.py", "MagicNumberRule"), "print_statements": ("linter.py", "PrintStatementRule"),
+                   "method_property": ("linter.py", "MethodPropertyRule"), "collection_pipeline": ("linter.py", "CollectionPipelineRule")}
+# stateless-class has the same matcher, but loads its section from `context.config`, an attribute the orchestrator never sets
+# (C05's finding): the list is unreachable -> kind "never"; fail closed as soon as _load_config changes
+SH_STATELESS_LOAD = ("def _load_config(self, context):\n    if not hasattr(context, 'S') or context.config is None:\n        return StatelessClassConfig()\n"
+                     "    config_dict = context.config\n    if not isinstance(config_dict, dict):\n        return StatelessClassConfig()\n"
+                     "    linter_config = config_dict.get('S', config_dict)\n    return StatelessClassConfig.from_dict(linter_config)")
+SUB_VIA_UTIL = {"unwrap_abuse": "UnwrapAbuseRule", "clone_abuse": "CloneAbuseRule", "blocking_async": "BlockingAsyncRule"}
+NEVER = ["nesting", "performance", "lbyl"]
+
+
+def _uses_attr(pkg: str, attr: str) -> bool:
+    """does any module of the linter package (except config.py, which only stores the list) read `<x>.<attr>`?"""
+    for f in sorted((REPO / "src" / "linters" / pkg).glob("*.py")):
+        if f.name == "config.py":
+            continue
+        for n in ast.walk(parse(str(f.relative_to(REPO)))):
+            if isinstance(n, ast.Attribute) and n.attr == attr and isinstance(n.ctx, ast.Load):
+                return True
+    return False
+
+
+def linter_matchers():
+    """(package, matcher kind) for the linters exercised by the pattern stream: path_or_sub / sub / never; every shape is checked"""
+    out = []
+    for pkg, (fname, cls) in MATCHER_CLASSES.items():
+        rel = f"src/linters/{pkg}/{fname}"
+        expect_shape(rel, "_matches_pattern", SH_PATH_OR_SUB, cls=cls)
+        expect_shape(rel, "_is_file_ignored", SH_IS_FILE_IGNORED_A, cls=cls)
+        out.append((pkg, "path_or_sub"))
+    expect_shape("src/linters/srp/linter.py", "_is_file_ignored", SH_IS_FILE_IGNORED_SUB, cls="SRPRule")
+    out.append(("srp", "sub"))
+    expect_shape("src/core/linter_utils.py", "is_ignored_path", SH_IS_IGNORED_PATH)
+    for pkg, cls in SUB_VIA_UTIL.items():
+        c = find_class(parse(f"src/linters/{pkg}/linter.py"), cls)
+        calls = [n for n in ast.walk(c) if isinstance(n, ast.Call) and isinstance(n.func, ast.Name) and n.func.id == "is_ignored_path"]
+        if len(calls) != 1 or ast.unparse(calls[0]) != "is_ignored_path(resolve_file_path(context), config.ignore)":
+            raise Unsupported(f"{pkg}: is_ignored_path call {[ast.unparse(x) for x in calls]}")
+        out.append((pkg, "sub"))
+    expect_shape("src/linters/stateless_class/linter.py", "_load_config", SH_STATELESS_LOAD, cls="StatelessClassRule")
+    expect_shape("src/linters/stateless_class/linter.py", "_matches_pattern", SH_PATH_OR_SUB, cls="StatelessClassRule")
+    out.append(("stateless_class", "never"))
+    for pkg in NEVER:
+        if _uses_attr(pkg, "ignore"):
+            raise Unsupported(f"{pkg}: the linter now reads an `ignore` attribute (its matcher has to be modelled)")
+        out.append((pkg, "never"))
+    body = "[" + "; ".join(f"({coq_string(a)}, {coq_string(b)})" for a, b in out) + "]"
+    return defn("linter_matchers", "list (string * string)", body)
+
+# ---------------------------------------------------------------- collection-pipeline / stateless-class: their own file-level and same-line tests
+SH_TL_FILE = ("def _is_file_ignore_directive(self, line):\n    line_lower = line.lower()\n    if 'S' not in line_lower:\n        return False\n"
+              "    if 'S' not in line_lower:\n        return True\n    return self._matches_rule_ignore(line_lower, 'S')")
+SH_TL_LINE = ("def _is_ignore_directive(self, line):\n    if 'S' not in line or 'S' not in line:\n        return False\n    if 'S' not in line:\n"
+              "        return True\n    return self._matches_rule_ignore(line, IgnoreDirective.IGNORE)")
+SH_TL_RULES = ("def _matches_rule_ignore(self, line, directive):\n    import re\n    pattern = f'{directive}S'\n    match = re.search(pattern, line)\n"
+               "    if not match:\n        return False\n    rules = [r.strip().lower() for r in match.group(0).split('S')]\n"
+               "    return any((self._rule_matches(r) for r in rules))")
+SH_TL_HAS_FILE = ("def _has_file_level_ignore(self, context):\n    if not context.file_content:\n        return False\n"
+                  "    lines = context.file_content.splitlines()[:HEADER_SCAN_LINES]\n    return any((self._is_file_ignore_directive(line) for line in lines))")
+SH_TL_HAS_LINE = ("def _has_inline_ignore(self, line_num, context):\n    line = self._get_line_text(line_num, context)\n    if not line:\n        return False\n"
+                  "    return self._is_ignore_directive(line.lower())")
+
+
+def tl_extras():
+    """needles of the two linters' own tests: [file marker; file bracket; file directive; tag; word; line bracket]; both linters must agree"""
+    seen = []
+    for rel, cls in (("src/linters/collection_pipeline/linter.py", "CollectionPipelineRule"), ("src/linters/stateless_class/linter.py", "StatelessClassRule")):
+        a, _, _ = expect_shape(rel, "_is_file_ignore_directive", SH_TL_FILE, cls=cls)
+        b, _, _ = expect_shape(rel, "_is_ignore_directive", SH_TL_LINE, cls=cls)
+        c, ints, _ = expect_shape(rel, "_matches_rule_ignore", SH_TL_RULES, cls=cls)
+        expect_shape(rel, "_has_file_level_ignore", SH_TL_HAS_FILE, cls=cls)
+        expect_shape(rel, "_has_inline_ignore", SH_TL_HAS_LINE, cls=cls)
+        if c != [BRACKET_TAIL, ","] or ints != [1]:
+            raise Unsupported(f"{rel}: _matches_rule_ignore regex/separator {c} {ints}")
+        ig = find_assign(find_class(parse("src/core/constants.py"), "IgnoreDirective"), "IGNORE")
+        if not isinstance(ig, ast.Constant) or not isinstance(ig.value, str):
+            raise Unsupported("IgnoreDirective.IGNORE")
+        seen.append(a + b + [ig.value])
+    if seen[0] != seen[1]:
+        raise Unsupported(f"the two linters' own ignore tests differ: {seen}")
+    return defn("tl_needles", "list string", coq_str_list(seen[0]))
+
 
 ITEMS = [
     ("header_scan_lines", header_window),
@@ -498,4 +591,6 @@ ITEMS = [
     ("registry_rule_ids", registry_rule_ids),
     ("shared_parser_users", shared_parser_users),
     ("generic_extras", generic_extras),
+    ("linter_matchers", linter_matchers),
+    ("tl_extras", tl_extras),
 ]
